@@ -111,9 +111,17 @@ def distinct_overhangs(rng, enz, count, tries=200):
     return out if len(out) == count else None
 
 
-def gen_chain(rng, enz, q, tmin=2, tmax=8, bmax=6):
-    """a vector and q modules chaining vdown -> ... -> vup; ground truth included"""
-    ohs = distinct_overhangs(rng, enz, q + 1)
+def gen_chain(rng, enz, q, tmin=2, tmax=8, bmax=6, vup_mirrors_start=False):
+    """a vector and q modules chaining vdown -> ... -> vup; ground truth included.
+    vup_mirrors_start: the vector's upstream overhang (the last junction) is the reverse complement of one
+    module's upstream overhang (the clash rule of assemble() is about module starts only)"""
+    if vup_mirrors_start:
+        ohs = distinct_overhangs(rng, enz, q)
+        if ohs is None:
+            return None
+        ohs = ohs + [rc(rng.choice(ohs))]
+    else:
+        ohs = distinct_overhangs(rng, enz, q + 1)
     if ohs is None:
         return None
     vup, vdown = ohs[q], ohs[0]
@@ -140,7 +148,44 @@ def c_role(role):
     return "RModule" if role == "module" else "RVector"
 
 
+def siblings(ctx, enz):
+    """generic classes over the other enzymes of the family that recognise the same site with another cut
+    geometry (neoschizomers): classes a kit may define next to this enzyme's"""
+    out = []
+    seen = set()
+    for e in ctx.tables["enzymes"]:
+        if e["site"] == enz["site"] and (e["off"], e["ovh"]) != (enz["off"], enz["ovh"]) and (e["off"], e["ovh"]) not in seen:
+            seen.add((e["off"], e["ovh"]))
+            out.append(generic_spec("module", e))
+            out.append(generic_spec("vector", e))
+    return out
+
+
+def resolve_spec(spec):
+    """a run-time subclass of a generic / part / custom class, as the class description it amounts to"""
+    if spec["kind"] != "sub":
+        return spec
+    base = dict(resolve_spec(spec["parent"]))
+    if base["kind"] == "kit":
+        raise ValueError("subclass of a kit class has no direct description")
+    if spec.get("cutter"):
+        base["enzyme"] = spec["cutter"]
+    if spec.get("sig"):
+        if base["kind"] not in ("generic", "part"):
+            raise ValueError("signature on a custom structure")
+        base["kind"] = "part"
+        base["sig"] = list(spec["sig"])
+    return base
+
+
+def sub_cutter_spec(role, parent_enz, enz):
+    """a class derived from the generic class over parent_enz that only overrides the cutter"""
+    return {"kind": "sub", "name": "Sub_%s_%s_of_%s" % (role, enz["name"], parent_enz["name"]),
+            "parent": generic_spec(role, parent_enz), "cutter": enz["name"]}
+
+
 def c_cls(ctx, spec):
+    spec = resolve_spec(spec)
     kind = spec["kind"]
     if kind == "kit":
         return '(kit_cls "%s")' % spec["name"]
